@@ -236,31 +236,36 @@ def count_obligations(files):
     return n_stmt, n_qed, names, bad
 
 
-def prove(prop_file, timeout=1500):
+def prove(prop_file, timeout=1500, also=()):
     """Build Props/<prop_file>.vo (full .vo), then re-run coqc on the property
-    file itself to capture Print Assumptions.  Returns dict."""
+    file itself to capture Print Assumptions.  Returns dict.
+    also: further property files of the same property that cannot be imported by <prop_file> (they import it)."""
     t0 = time.time()
     vfile = f'theories/Props/{prop_file}.v'
-    closure = coq_closure(vfile)
-    ok, log = coq_make([vfile + 'o'], timeout=timeout)
+    vfiles = [vfile] + [f'theories/Props/{f}.v' for f in also]
+    closure = []
+    for vf in vfiles:
+        closure += [c for c in coq_closure(vf) if c not in closure]
+    ok, log = coq_make([vf + 'o' for vf in vfiles], timeout=timeout)
     assumptions = ''
     if ok:
-        lock = _lock()
-        try:
-            rc, out = sh(['timeout', '600', 'coqc', '-Q', 'theories', 'DD',
-                          '-w', '-notation-overridden,-unknown-option', vfile], cwd=COQ, timeout=630)
-        finally:
-            lock.close()
-        if rc != 0:
-            ok = False
-            log += '\n' + out
-        assumptions = out
+        for vf in vfiles:
+            lock = _lock()
+            try:
+                rc, out = sh(['timeout', '600', 'coqc', '-Q', 'theories', 'DD',
+                              '-w', '-notation-overridden,-unknown-option', vf], cwd=COQ, timeout=630)
+            finally:
+                lock.close()
+            if rc != 0:
+                ok = False
+                log += '\n' + out
+            assumptions += out
     coqchk = None
     if ok and os.environ.get('VERIF_COQCHK') == '1':
         # independent re-check of the compiled closure and the axioms it relies on (thorough tier)
         lock = _lock()
         try:
-            rc, out2 = sh(['timeout', '1500', 'coqchk', '-silent', '-o', '-Q', 'theories', 'DD', f'DD.Props.{prop_file}'], cwd=COQ, timeout=1530)
+            rc, out2 = sh(['timeout', '1500', 'coqchk', '-silent', '-o', '-Q', 'theories', 'DD'] + [f'DD.Props.{f}' for f in [prop_file] + list(also)], cwd=COQ, timeout=1530)
         finally:
             lock.close()
         coqchk = dict(rc=rc, tail=out2[-1500:])
